@@ -190,7 +190,7 @@ fn silence_case(ctx: &mut Ctx, env: &Env, rng: &mut Rng, base: &Engine, descr: &
 pub fn run(ctx: &mut Ctx) {
     let env = Env::new(ctx);
     let bundled = env.load_bundled();
-    let n = ctx.n(48, 4000);
+    let n = ctx.n(96, 4000);
     ctx.run_cases("bundled", n, false, |ctx, rng, idx| {
         one(ctx, &env, rng, &bundled, &env.bundled_ref, "bundled", idx);
     });
